@@ -9,6 +9,7 @@ from __future__ import annotations
 
 import importlib
 import itertools
+import os
 import math
 import pkgutil
 import warnings
@@ -94,6 +95,17 @@ class Cmp:
                     r = interpreted()
             except (FloatingPointError, RuntimeWarning, ValueError, ZeroDivisionError, OverflowError) as e:
                 ref_exc = e
+            except Exception as e:  # noqa: BLE001
+                # anything else (UnboundLocalError, IndexError, ...) counts as the program's own behaviour only when it
+                # is raised by the program's source, not by the shims that stand in for Numba
+                tb, last = e.__traceback__, None
+                while tb is not None:
+                    last = tb.tb_frame.f_code.co_filename
+                    tb = tb.tb_next
+                if last is not None and os.path.realpath(last).startswith(os.path.realpath(os.environ.get("VERIF_REPO_DIR", "/repo")) + os.sep):
+                    ref_exc = e
+                else:
+                    raise
         try:
             c = compiled()
             c_exc = None
@@ -538,6 +550,19 @@ def generators(thorough):
 
     also(*also_later)
     also(*also_later2)
+
+    # V-curve kernels on grids whose first interval holds the optimum (grid starting at lambda = 1, two-point grid)
+    def vcurve_low(name, args_of, p_env):
+        def run(obj, fi, C):
+            for grid in (np.arange(0.0, 3.2, 0.4), np.array([0.0, 1.0]), np.array([2.0, 3.0, 4.0])):
+                for y in W5[:: 3]:
+                    n = len(y)
+                    args = args_of(y, grid)
+                    c, i = gu_pair(obj, fi, args, [((n,), "int16"), ((1,), "float64")])
+                    C.run(c, i, f"y={y.tolist()} grid={grid.tolist()}", lam_tie=lambda a, b, same_band, y=y, grid=grid: vc_tie(grid, p_env)(y, a, b, same_band))
+        also(name, run)
+    vcurve_low("ws2doptv.ws2doptv", lambda y, g: (y, float(ND), g), None)
+    vcurve_low("ws2doptvp.ws2doptvp", lambda y, g: (y, float(ND), 0.9, g), 0.9)
     E16, _ = words(5, 4, [-32768, -25000, 0, 30000, 32767], stride=S)
     E16b, _ = words(4, 5, [-32768, -3, 2, 32767], stride=3 * S)
     EU = {"uint8": [0, 3, 200, 255], "uint16": [0, 3, 40000, 65535], "int32": [-2 ** 31, -7, 5, 2 ** 31 - 1]}
